@@ -40,7 +40,7 @@ from ZODB.POSException import InvalidObjectReference, POSKeyError  # noqa: E402
 from ZODB.serialize import get_refs, referencesf  # noqa: E402
 
 import c14_classes  # noqa: E402
-from c14_classes import Gone, GoneNA, Node, NodeNA  # noqa: E402
+from c14_classes import Gone, GoneNA, Node, NodeNA, PlainGone  # noqa: E402
 
 Z64 = b'\0' * 8
 TMPBASE = [None]                          # scratch directory of the run (ck.tmp)
@@ -71,6 +71,13 @@ def tr_value(v, leaf, memo):
     """value -> prefix token list; `leaf(obj)` gives the tokens for a persistent leaf"""
     if isinstance(v, (Persistent, WeakRef, Ref)):
         return leaf(v)
+    if type(v).__name__ == 'PlainGone' or isinstance(v, ZODB.broken.Broken):
+        # a plain (non-persistent) instance pickled by value — the real class, or its placeholder
+        if id(v) in memo:
+            return [MEMO]
+        memo[id(v)] = v
+        st = v.__dict__.get('__Broken_state__') if isinstance(v, ZODB.broken.Broken) else v.__dict__
+        return ['n3:1'] + tr_value(st, leaf, memo)
     if isinstance(v, (list, tuple, dict)):
         if v == () and isinstance(v, tuple):
             return ['n1:0']
@@ -186,6 +193,8 @@ def sentinels(x, acc, seen):
         sentinels(x.__getstate__(), acc, seen)
     elif isinstance(x, WeakRef):
         acc.append('EMBEDDED:WeakRef')
+    elif type(x).__name__ == 'PlainGone':
+        sentinels(x.__dict__, acc, seen)
 
 
 def legacy_weak(data):
@@ -487,6 +496,10 @@ class Session:
         if k == 'dup':
             x = self.build(spec[1], shared)
             return [x, x]
+        if k == 'p':
+            o = PlainGone('p')
+            o.kids = [self.build(x, shared) for x in spec[1]]
+            return o
         return 0
 
     def run(self):
@@ -562,6 +575,51 @@ class Session:
             if o is None or c is None or o._p_jar is not None:
                 return
             c.add(o)
+        elif k == 'rewrite-missing':
+            # while the classes of c14_gone cannot be imported, another connection loads the (committed)
+            # object — plain instances of such classes inside it are placeholders — and stores it again
+            mine = self.names.get(op[1])
+            if mine is None or mine._p_oid is None or isinstance(mine, (Gone, GoneNA, NodeNA)) \
+                    or self.connid.get(id(mine._p_jar), (9,))[0] != 0 or not self._exists(self.storages[0], mine._p_oid):
+                return
+            tm2 = transaction.TransactionManager()
+            c14_classes.hide_gone()
+            c = self.dbs[0].open(transaction_manager=tm2)
+            try:
+                c.cacheMinimize()
+                o = c.get(mine._p_oid)
+                o._p_activate()
+                o._p_changed = True
+                tm2.commit()
+                self.count('rewrite-missing')
+            finally:
+                tm2.abort()
+                c14_classes.show_gone()
+                c.close()
+                # the ghosts this connection made are placeholders for good: pooled connections start
+                # with new caches when they are opened next
+                ZODB.Connection.resetCaches()
+        elif k == 'conflict':
+            # another connection re-stores the (committed) object unchanged: if this session has modified
+            # it too, its commit fails with ConflictError while storing
+            tm2 = transaction.TransactionManager()
+            c = self.dbs[0].open(transaction_manager=tm2)
+            try:
+                if op[1] == '@root':
+                    o = c.get(Z64)
+                else:
+                    mine = self.names.get(op[1])
+                    if mine is None or mine._p_oid is None or self.connid.get(id(mine._p_jar), (9,))[0] != 0:
+                        return
+                    o = c.get(mine._p_oid)
+                o._p_activate()
+                o._p_changed = True
+                tm2.commit()
+                self.count('foreign-commit')
+            except POSKeyError:
+                tm2.abort()
+            finally:
+                c.close()
         elif k == 'poison':
             o = self.names.get(op[1])
             if isinstance(o, (Node, NodeNA)):
@@ -868,6 +926,9 @@ class Session:
             except UnicodeError:
                 out.append(key + '=err:Unicode')
                 continue
+            except Exception as e:
+                out.append(key + '=err:Load:%s' % type(e).__name__)
+                continue
             toks = tr_value(st, leaf, {})
             out.append('%s=%d/%d/%s' % (key, clsid(type(obj)), int(isinstance(obj, ZODB.broken.Broken)),
                                        ' '.join(toks)))
@@ -1051,6 +1112,113 @@ class Session:
             self.violation('C14:export-set', 'exportFile(root) holds %s; reachable through strong same-database '
                            'references are %s' % (sorted(o.hex() for o in got), sorted(o.hex() for _, o in want)))
 
+    def import_check(self):
+        """exportFile + importFile into another database is a graph round trip up to the oids: cycles and
+        references back to the exported object included.  (importFile documents that it handles neither
+        weak nor cross-database references: only sub-graphs without them are taken.)"""
+        import tempfile
+        recs = self._all_records(self.storages[0])
+        plain = {}
+        for oid, data in recs.items():
+            try:
+                c_, a_, s_, _ = decode_record(data)
+                plain[oid] = all(t[0] in 'TO' for t in tree_leaves((a_ or []) + s_))
+            except Exception:
+                plain[oid] = False
+
+        def closure(k):
+            seen, todo = [], [k]
+            while todo:
+                x = todo.pop(0)
+                if x in seen:
+                    continue
+                seen.append(x)
+                todo += [t for t in self.edges.get(x, ())]
+            return seen
+        best = None
+        for k in sorted(self.expect):
+            if k[0] != 0 or k[1] not in recs:
+                continue
+            cl = closure(k)
+            if len(cl) > 40 or not all(x[0] == 0 and x in self.expect and plain.get(x[1]) for x in cl):
+                continue
+            back = any(k in self.edges.get(x, ()) for x in cl)       # something refers back to the exported object
+            if best is None or (back and not best[1]) or (back == best[1] and len(cl) > len(best[2])):
+                best = (k, back, cl)
+        if best is None:
+            return
+        root_key, back, cl = best
+        self.count('import' + (':back-reference' if back else ''))
+
+        def canon_expected():
+            num, order, out = {root_key: 0}, [root_key], []
+            i = 0
+            while i < len(order):
+                k = order[i]
+                i += 1
+                cls_, toks, _ = self.expect[k]
+                line = []
+                for t in toks:
+                    if t[0] == 'o':
+                        d, _, oh = t[1:].partition(':')
+                        kk = (int(d), bytes.fromhex(oh))
+                        if kk not in num:
+                            num[kk] = len(order)
+                            order.append(kk)
+                        line.append('o#%d' % num[kk])
+                    else:
+                        line.append(t)
+                out.append('%d=%d/%s' % (num[k], cls_, ' '.join(line)))
+            return out
+
+        src = self.dbs[0].open(transaction_manager=self.ltm)
+        db2 = ZODB.DB(MappingStorage('import'))
+        try:
+            with tempfile.TemporaryFile() as f:
+                src.exportFile(root_key[1], f)
+                f.seek(0)
+                tm2 = transaction.TransactionManager()
+                c2 = db2.open(transaction_manager=tm2)
+                obj = c2.importFile(f)
+                c2.root()['imported'] = obj
+                tm2.commit()
+                start = obj._p_oid
+                c2.close()
+            tm3 = transaction.TransactionManager()
+            c3 = db2.open(transaction_manager=tm3)
+            c3.cacheMinimize()
+            num, order, out = {start: 0}, [start], []
+            i = 0
+            try:
+                while i < len(order):
+                    oid = order[i]
+                    i += 1
+                    o = c3.get(oid)
+                    o._p_activate()
+
+                    def leaf(x):
+                        if isinstance(x, WeakRef):
+                            return ['r?']
+                        if x._p_oid not in num:
+                            num[x._p_oid] = len(order)
+                            order.append(x._p_oid)
+                        return ['o#%d' % num[x._p_oid]]
+                    out.append('%d=%d/%s' % (num[oid], clsid(type(o)), ' '.join(tr_value(o.__getstate__(), leaf, {}))))
+            except POSKeyError as e:
+                out.append('POSKeyError %s' % (e,))
+            finally:
+                tm3.abort()
+                c3.close()
+            want = canon_expected()
+            if out != want:
+                self.violation('C14:import', 'the graph exported from %s and imported into another database is %s; '
+                               'the stored graph is %s' % (root_key[1].hex(), ' | '.join(out)[:600],
+                                                           ' | '.join(want)[:600]))
+        finally:
+            self.ltm.abort()
+            src.close()
+            db2.close()
+
     def historical_phase(self):
         """The graph as of an earlier transaction T, loaded through a historical connection
         (DB.open(before=...)): every reference — also one into the other database, resolved through the
@@ -1126,6 +1294,7 @@ class Session:
             finally:
                 c14_classes.show_gone()
         self.export_check()
+        self.import_check()
         if self.case.get('legacy', True):
             patched = {}
             for k, data in allrecs.items():
@@ -1361,6 +1530,9 @@ class Oracle:
             key, _, val = entry.partition('=')
             d, _, oh = key.partition(':')
             k = (int(d), bytes.fromhex(oh))
+            if val.startswith('err:Load'):
+                s.violation('C14:roundtrip', '%s: the stored object %s cannot be loaded: %s' % (variant, key, val))
+                continue
             if val.startswith('err:'):
                 s.violation(self.sig('C14:dangling-reference', [k]),
                             '%s: reference to %s leads to %s' % (variant, key, val))
@@ -1420,6 +1592,8 @@ def gen_value(rng, names, depth, weak_p):
             kids.append(['a', rng.choice([0, 1, 7, 'x', 'text', None, 2.5])])
         else:
             kids.append(gen_value(rng, names, depth - 1, weak_p))
+    if rng.random() < 0.07:
+        return ['p', kids]          # inside a plain instance of a class that will go missing
     if r < 0.62:
         return ['l', kids]
     if r < 0.78:
@@ -1497,6 +1671,9 @@ def gen_case(rng, thorough=False):
             ops += [['poison', victim], ['touch', victim], ['commit']]
             return case
         ops.append(['commit'])
+        if rng.random() < 0.12:
+            # a record re-written by somebody who cannot import c14_gone
+            ops.append(['rewrite-missing', rng.choice(allnames)])
     if ndb == 1 and weak_p == 0.0 and rng.random() < 0.5:
         # one more transaction with savepoints: objects are created and written by savepoints, the
         # transaction is rolled back to an earlier savepoint, and the same in-memory objects are attached
@@ -1533,6 +1710,11 @@ def gen_case(rng, thorough=False):
                 ops.append(['set', rng.choice(kept), 'again', ['t', [['r', n]]]])
         if rng.random() < 0.3:
             ops.append(['savepoint'])
+        if rng.random() < 0.3:
+            # somebody else re-stores the root mapping this transaction has changed: the copy of the
+            # savepoint data into the storage fails with ConflictError (the case ends there: after the
+            # abort no new object may keep the oid a savepoint gave it)
+            ops.append(['conflict', '@root'])
         ops.append(['commit'])
     return case
 
@@ -1554,6 +1736,20 @@ CORPUS = [
         ['set', 'h', 'child', ['r', 'x']], ['savepoint'],
         ['rollback', 0],
         ['set', 'h', 'child', ['t', [['r', 'x'], ['a', 5]]]], ['commit']]),
+    # the final commit of a transaction with savepoints fails while copying the savepoint data (conflict on h);
+    # after the abort the object a savepoint created must be un-owned again, and the retry stores it
+    dict(ndb=1, xrefs=[1, 1], oids=[[], [], []], legacy=False, fresh_each=True, reset=False, goon=True, ops=[
+        ['new', 'h', 'N'], ['root', 0, 'h', 'h'], ['commit'],
+        ['set', 'h', 'v', ['a', 1]], ['savepoint'], ['new', 'x', 'N'], ['new', 'y', 'A'],
+        ['set', 'x', 'f', ['l', [['r', 'y'], ['r', 'x']]]], ['set', 'h', 'child', ['r', 'x']], ['savepoint'],
+        ['conflict', 'h'], ['commit'],
+        ['set', 'h', 'child', ['r', 'x']], ['commit']]),
+    # a plain instance of a class with __new__ arguments inside a record that is re-written while the class is
+    # missing (placeholder pickled through ZODB.broken.rebuild), then loaded with the class back
+    dict(ndb=1, xrefs=[1, 1], oids=[[], [], []], legacy=True, fresh_each=True, reset=False, ops=[
+        ['new', 'h', 'N'], ['new', 'k', 'A'], ['new', 'g', 'G'],
+        ['set', 'h', 'f', ['l', [['p', [['r', 'k'], ['a', 7], ['r', 'h']]], ['r', 'g']]]], ['root', 0, 'h', 'h'],
+        ['commit'], ['rewrite-missing', 'h'], ['set', 'k', 'v', ['a', 1]], ['commit']]),
     # a pooled connection reopened after ZODB.Connection.resetCaches(): one cache for references and get()
     dict(ndb=1, xrefs=[1, 1], oids=[[], [], []], legacy=False, fresh_each=False, reset=True, storage='file', ops=[
         ['new', 'a', 'N'], ['new', 'b', 'N'], ['new', 'shared', 'N'],
